@@ -14,6 +14,24 @@ CHECKS = {
  "C05": ("fault_enumeration", "MonAlloc ledger (exactly-once release, release layout within [requested, granted], guard zones, poison of released blocks) + event-log pairing, with base-allocator refusals enumerated per call index",
          "Lifecycle histories ending in drop at arbitrary points, reset/reset_to_start/into_raw round trips, under three fault modes (none, random refusals, each base call index refused individually plus refuse-from-k and pairs); all allocator value layouts and over-granting/minimal-alignment grant policies.",
          "DESIGN.md 2/C05"),
+ "C06": ("fault_enumeration", "drop ledger (per-identity drop counters, conservation created = in collections + dropped + explicitly leaked) with a panic injected at every callback index of every history",
+         "Every generated history over BumpBox<[T]>, FixedBumpVec, BumpVec, MutBumpVec, MutBumpVecRev (tracked sized and zero-sized elements) is first run dry to count the callbacks the library makes (Clone, PartialEq, Drop, predicates, generators), then re-run with a panic injected at each callback index (strided when there are more than the per-history cap); after every operation - including the one that unwound - no identity may have been dropped twice, none may be owned twice, none may be lost unless the panic came out of a Drop, and at teardown every identity is dropped exactly once (forgotten drains exempt).",
+         "DESIGN.md 2/C06"),
+ "C07": ("fault_enumeration", "outcome classification (Ok / Err / alloc-error panic / other panic) against the refusals MonAlloc recorded for that operation, then all state oracles; each base-allocator call index refused individually",
+         "Arena histories and collection histories (vectors, strings) are run unfaulted to count base-allocator calls, then once per call index with exactly that call refused, plus refuse-from-k, pairs and random refusals; overflowing sizes (reserve(usize::MAX), isize::MAX bytes) are part of the argument generators. try_ methods must return Err without panicking, panicking methods must not return, the failed collection must be unchanged, the arena must still pass the statistics walker and serve an allocation afterwards, nothing may leak.",
+         "DESIGN.md 2/C07"),
+ "C08": ("exploration", "lock-step std::vec::Vec reference model (values, lengths, returned values, panic occurrence), capacity promises and buffer-address stability",
+         "All five vector families x element types u8, u32, [u8;3], u64, (), tracked sized and tracked zero-sized x both directions and three minimum alignments; arguments include boundary and out-of-range indices and inverted/overflowing ranges; MutBumpVecRev is compared with the front/back-mirrored model taken from its documentation.",
+         "DESIGN.md 2/C08"),
+ "C09": ("exploration", "lock-step std String model + core::str::from_utf8 on the raw bytes after every operation (also after injected panics), decoding constructors against std, C-string byte comparison",
+         "BumpBox<str>, FixedBumpString, BumpString, MutBumpString with text mixing 1-4 byte characters, combining marks and NUL; every byte index incl. non-boundaries and len+1; invalid/truncated UTF-8 and lone surrogates for the decoding constructors; retain with a panicking predicate; write! with a failing Display.",
+         "DESIGN.md 2/C09"),
+ "C15": ("exploration", "per-chunk bump-position vector read through allocator_stats() while an exclusive-borrow collection is filled/dropped/finalised, commit-advance bound, contents vs model; arena-level prepared-slice and *_mut helper operations",
+         "MutBumpVec/MutBumpVecRev/MutBumpString filled over multi-chunk initial states with growth into other chunks, failed reservations, injected panics; positions of all chunks up to the one current at creation must not move until finalisation, which must advance by the content size plus at most alignment padding.",
+         "DESIGN.md 2/C15"),
+ "C16": ("exploration", "partition model over a population of parts descending from one allocation: contents per part, identity ownership, capacity sums, memory disjointness, sibling integrity after follow-up operations, merge adjacency",
+         "split_off (all range shapes), split_at, split_first/last, split_off_first/last, partition, merge (adjacent and non-adjacent) on boxed slices, fixed vectors, vectors and strings; follow-ups (push/grow, shrink_to_fit, pop, dealloc, conversions, drop) on one part while all others are re-read.",
+         "DESIGN.md 2/C16"),
  "C10": ("exploration", "statistics walker after every operation: typed and type-erased views field by field, list coherence, size/alignment/containment relations",
          "The walker of DESIGN 1.4 runs after every operation of the C01 histories for all allocator value layouts (header size 32..240, header alignment 16..64).",
          "DESIGN.md 2/C10"),
@@ -45,7 +63,8 @@ m = {
  },
  "engines": [
   {"name": "pure", "path": "harness/src/bin/pure.rs", "serves_properties": ["C11", "C12"], "kind_free_text": "the crate's dependency-free arithmetic files compiled from /repo via #[path] and run against a wide-integer reference specification"},
-  {"name": "arena", "path": "harness/src/bin/arena.rs", "serves_properties": ["C01", "C02", "C03", "C05", "C10", "C12", "C13", "C14", "C18"], "kind_free_text": "generated operation histories over the real arena with online monitors (shadow ledger, stats walker, MonAlloc ledger), run natively (debug+release), under Miri, ASan and valgrind"}
+  {"name": "coll", "path": "harness/src/bin/coll.rs", "serves_properties": ["C06", "C07", "C08", "C09", "C15", "C16"], "kind_free_text": "generated operation histories on the real collections in lock-step with std reference models, a per-identity drop ledger with injected callback panics, and MonAlloc fault injection"},
+  {"name": "arena", "path": "harness/src/bin/arena.rs", "serves_properties": ["C01", "C02", "C03", "C05", "C07", "C10", "C12", "C13", "C14", "C15", "C18"], "kind_free_text": "generated operation histories over the real arena with online monitors (shadow ledger, stats walker, MonAlloc ledger), run natively (debug+release), under Miri, ASan and valgrind"}
  ],
  "checks": [],
  "not_applicable": [
@@ -60,7 +79,7 @@ for pid, (cat, tech, text, ref) in CHECKS.items():
         "thorough_cmd": f"python3 /verif/check.py {pid} --tier thorough",
         "evidence_file": f"/verif/evidence/{pid}.json",
         "replay_cmd_template": f"python3 /verif/check.py {pid} --replay {{path}}",
-        "engine": "pure" if pid == "C11" else ("pure+arena" if pid == "C12" else "arena"),
+        "engine": {"C11": "pure", "C12": "pure+arena", "C06": "coll", "C08": "coll", "C09": "coll", "C16": "coll", "C07": "coll+arena", "C15": "coll+arena"}.get(pid, "arena"),
         "level_claimed": {"category": cat, "text": text, "design_ref": ref},
         "level_note": "held on the executions observed (counts in the evidence file); trusts the harness' own oracles, MonAlloc, the nightly toolchain, Miri/ASan/valgrind; paths no workload reached are not covered",
         "technique": tech,
